@@ -175,6 +175,16 @@ fn shash0(s: &S) -> u64 {
     }
 }
 
+/// the FunctionCall named in the case language with the given arguments
+pub fn func_call(name: &str, args: Vec<SimpleExpr>) -> FunctionCall {
+    let fc = if let Some(h) = name.strip_prefix("cust:") {
+        Func::cust(a(&unhexs(h)))
+    } else {
+        (funcs().into_iter().find(|(_, n, _)| *n == name).expect("func").2)()
+    };
+    fc.args(args)
+}
+
 /// the ExprTrait method that is documented to build `l <op> r`, where there is one
 fn api_bin(l: SimpleExpr, op: &str, r: SimpleExpr) -> Option<SimpleExpr> {
     Some(match op {
